@@ -168,9 +168,14 @@ Gs2(s) ==
 (* data of the first packet: (key 00 value 00)* 00; then section 01 = player fields, 02 = team        *)
 (* fields; a field is: name 00, index of the first value, values 00 ..., 00.                          *)
 Gs3Known == <<"hostname", "mapname", "password", "gametype", "gamever", "maxplayers", "minplayers", "numplayers", "tournament">>
-Gs3Shapes == [players : Counts, teams : TeamCounts, extras : {0, 2}, opt : BOOLEAN, num : {"absent", "equal", "more", "less", "zero"}, packets : PartCounts]
+\* tsplit: the teams section travels in a packet of its own (the reply is cut exactly between the player and the team section)
+Gs3Shapes == [players : Counts, teams : TeamCounts, extras : {0, 2}, opt : BOOLEAN, num : {"absent", "equal", "more", "less", "zero"},
+              packets : PartCounts, tsplit : BOOLEAN]
+\* packets that carry player entries
+PP(s) == IF s.tsplit THEN s.packets - 1 ELSE s.packets
 \* every packet carries something: a server does not send empty packets; reporting fewer players than listed needs a listed player
-Gs3Ok(s) == (s.packets > 1 => s.players >= s.packets) /\ (s.num \in {"less", "zero"} => s.players >= 1)
+Gs3Ok(s) == /\ (s.tsplit => (s.packets > 1 /\ s.teams > 0))
+            /\ (s.packets > 1 => s.players >= PP(s)) /\ (s.num \in {"less", "zero"} => s.players >= 1)
 \* reported-vs-listed override (GameSpy 3, JC2M): players_online = max(reported, listed)
 Reported3(s) == CASE s.num = "more" -> s.players + 3 [] s.num = "less" -> s.players - 1 [] s.num = "zero" -> 0 [] OTHER -> s.players
 OnlineMax(s) == IF Reported3(s) > s.players THEN Reported3(s) ELSE s.players
@@ -190,17 +195,20 @@ Gs3Vars(s) ==
   \o If(s.num # "absent", <<Txt("numplayers"), Lit(NUL), Txt(Str(Reported3(s))), Lit(NUL)>>)
   \o Cat([i \in 1 .. s.extras |-> <<Fkey("xk" \o X(i), "", "keys", Gs3Known), Lit(NUL), Fmin("xv" \o X(i), "text", "", 0), Lit(NUL)>>])
   \o <<Lit(NUL)>>
-Gs3Head(id, last) == <<Lit(<<0, 0, 0, 0, 1>>), Txt("splitnum"), Lit(NUL), Lit(<<id + (IF last THEN 128 ELSE 0)>>), Lit(<<0>>)>>
-\* players are dealt over the packets in index order: packet j carries entries Lo(j)..Hi(j) of every player field
-Lo(s, j) == ((j - 1) * s.players) \div s.packets + 1
-Hi(s, j) == (j * s.players) \div s.packets
+\* the byte after the packet id names the section the packet's data starts with (0 variables, 1 players, 2 teams); a section
+\* that starts inside a packet is introduced by its number in the data
+Gs3Head(id, last, first) == <<Lit(<<0, 0, 0, 0, 1>>), Txt("splitnum"), Lit(NUL), Lit(<<id + (IF last THEN 128 ELSE 0)>>), Lit(<<first>>)>>
+\* players are dealt over the packets that carry players in index order: packet j carries entries Lo(j)..Hi(j) of every player field
+Lo(s, j) == ((j - 1) * s.players) \div PP(s) + 1
+Hi(s, j) == (j * s.players) \div PP(s)
 Gs3Packet(s, j) ==
-  Gs3Head(j - 1, j = s.packets)
-  \o If(j = 1, Gs3Vars(s))
-  \o If(s.players > 0 /\ Lo(s, j) <= Hi(s, j),
-        <<Lit(<<1>>)>> \o Cat([f \in 1 .. Len(PlayerFields) |-> Field(PlayerFields[f], Lo(s, j), Hi(s, j))]) \o <<Lit(NUL)>>)
-  \o If(j = s.packets /\ s.teams > 0,
-        <<Lit(<<2>>)>> \o Cat([f \in 1 .. Len(TeamFields) |-> Field(TeamFields[f], 1, s.teams)]) \o <<Lit(NUL)>>)
+  LET hasPl == j <= PP(s) /\ s.players > 0 /\ Lo(s, j) <= Hi(s, j)
+      hasTm == j = s.packets /\ s.teams > 0
+      first == IF j = 1 THEN 0 ELSE IF hasPl THEN 1 ELSE 2
+  IN Gs3Head(j - 1, j = s.packets, first)
+     \o If(j = 1, Gs3Vars(s))
+     \o If(hasPl, If(j = 1, <<Lit(<<1>>)>>) \o Cat([f \in 1 .. Len(PlayerFields) |-> Field(PlayerFields[f], Lo(s, j), Hi(s, j))]) \o <<Lit(NUL)>>)
+     \o If(hasTm, If(j = 1 \/ hasPl, <<Lit(<<2>>)>>) \o Cat([f \in 1 .. Len(TeamFields) |-> Field(TeamFields[f], 1, s.teams)]) \o <<Lit(NUL)>>)
 Gs3(s) ==
   [packets |-> [j \in 1 .. s.packets |-> Gs3Packet(s, j)],
    expect |-> <<E(<<"name">>, "host"), E(<<"map">>, "map"), E(<<"game_mode">>, "gametype"), E(<<"game_version">>, "gamever"),
@@ -248,7 +256,8 @@ AtomSeqs(n) == IF n = 0 THEN {<<>>}
                     \cup {[i \in 1 .. n |-> IF i = 1 THEN "esc" ELSE "ch"], [i \in 1 .. n |-> IF i = n THEN "esc" ELSE "ch"],
                           [i \in 1 .. n |-> IF i = (n + 1) \div 2 THEN "ctl" ELSE "ch"]}
                     \cup (IF n >= 3 THEN {[i \in 1 .. n |-> IF i \in {2, 3} THEN "esc" ELSE "ch"]} ELSE {})
-U2StrShapes == UNION {[len : {n}, enc : {"latin1", "ucs2"}, atoms : AtomSeqs(n)] : n \in StrLens}
+\* "ucs2stray": a UCS-2 string with the uncounted 01 byte some games put after the length byte (D9)
+U2StrShapes == UNION {[len : {n}, enc : {"latin1", "ucs2", "ucs2stray"}, atoms : AtomSeqs(n)] : n \in StrLens}
 Ustr(f, enc, atoms) == [k |-> "f", f |-> f, ty |-> "ustr", enc |-> enc, atoms |-> atoms]
 UstrPlain(f) == [k |-> "f", f |-> f, ty |-> "ustr", enc |-> "any", atoms |-> <<>>]   \* harness picks length, encoding, plain characters
 U2Head(kind) == <<Lit(<<128, 0, 0, 0, kind>>)>>
